@@ -61,7 +61,26 @@ def lexCase (src : List Nat) : String :=
     else if t.id = Ecal.Lex.tERROR then "X"
     else "T" ++ toString t.id
   let isStr := toks.any fun t => t.id = Ecal.Lex.tSTRING
-  ",".intercalate (toks.map show1) ++ (if isStr then "\tnt=1" else "")
+  -- known finding quote-escape-unusable: a quoted (non-raw) literal that is closed by its own quote character and
+  -- whose body holds `\'`, or `\"` in the single-quoted form, always ends as a lexer error although ecal.md
+  -- promises escapes in both forms (the lexer treats the escaped quote as not closing, then hands a text to
+  -- strconv.Unquote that it rejects)
+  let quoteEsc : Bool :=
+    match src with
+    | q :: rest =>
+      (q = 34 || q = 39) && rest.getLast? = some q &&
+        (let rec has (l : List Nat) : Bool :=
+            match l with
+            | 92 :: 39 :: _ => true
+            | 92 :: 34 :: t => q = 39 || has t
+            | 92 :: _ :: t => has t
+            | _ :: t => has t
+            | [] => false
+          has rest.dropLast) &&
+        toks.any (fun t => t.id = Ecal.Lex.tERROR)
+    | [] => false
+  ",".intercalate (toks.map show1) ++ (if isStr then "\tnt=1" else "") ++
+    (if quoteEsc then "\tkf=quote-escape-unusable" else "")
 
 /-- ST: the expressions of one literal share a scope: `v` global (0 at the start), `w` defined by the literal's
     own expressions. State = (v, w, log). -/
@@ -72,6 +91,7 @@ structure StState where
 
 def stEv (asg und : List Nat) (st : StState) (c : List Nat) : List Nat × StState :=
   if c = strBytes "v := v + 1" then (asg, { st with v := st.v + 1 })
+  else if c = strBytes "v := v + 2" then (asg, { st with v := st.v + 2 })
   else if c = strBytes "v" then (strBytes (toString st.v), st)
   else if c = strBytes "x.cnt(v)" then (strBytes ("c" ++ toString st.v), { st with log := st.log ++ [toString st.v] })
   else if c = strBytes "w := v" then (asg, { st with w := some st.v })
@@ -86,8 +106,44 @@ def stCase (lit asg und : List Nat) : String :=
   | Out.panic => "PANIC slice bounds out of range"
   | Out.outOfFuel => "HANG"
 
+/-- CTX: one literal evaluated several times in a context (function calls, loop rounds); table j holds the
+    replacement texts of the literal's expressions in evaluation j. Result = out_1 | out_2 | … | and the log. -/
+def ctxCase (lit : List Nat) (tabs : List (List Entry)) : String :=
+  let step (acc : Option (List Nat × List String)) (tab : List Entry) : Option (List Nat × List String) :=
+    match acc with
+    | none => none
+    | some (out, lg) =>
+      if (evaluated lit).any (fun c => (lookup tab c).isNone) then none
+      else
+        let evS : List String → List Nat → List Nat × List String := fun l c =>
+          match lookup tab c with | some e => (e.repl, l ++ e.log) | none => ([], l)
+        match impl evS lg lit with
+        | Out.ok o lg' => some (out ++ o ++ [124], lg')
+        | _ => none
+  match tabs.foldl step (some ([], [])) with
+  | some (out, lg) => hexEnc out ++ " " ++ (if lg.isEmpty then "-" else ".".intercalate lg) ++ "\tnt=1"
+  | none => "MISSING-OR-PANIC"
+
+def parseEntryHexLog (s : String) : Option Entry :=
+  match s.splitOn ":" with
+  | [c, r, l] => do
+    let c ← hexDecode c
+    let r ← hexDecode r
+    let l ← (if l = "-" then some [] else (hexDecode l).map fun b => [String.mk (b.map fun n => Char.ofNat n)])
+    some { code := c, repl := r, log := l }
+  | _ => none
+
 def runCase (payload : String) : String :=
   match payload.splitOn " " with
+  | "OUT" :: _code :: canon =>
+    -- the output step of ONE expression: the expected canonical form comes from an evaluation of the code
+    -- alone that does not go through rt_value.go (independent oracle on the Go side); the model states what
+    -- must stand in the literal's place: that value's text / that error under the marker
+    " ".intercalate canon ++ "\tnt=1"
+  | ["CTX", _prog, lit, tabs] =>
+    match hexDecode lit, (tabs.splitOn "|").mapM (fun t => (t.splitOn ",").mapM parseEntryHexLog) with
+    | some lit, some tabs => ctxCase lit tabs
+    | _, _ => "bad-payload"
   | ["ST", _src, lit, asg, und] =>
     match hexDecode lit, hexDecode asg, hexDecode und with
     | some lit, some asg, some und => stCase lit asg und
@@ -108,7 +164,10 @@ def runCase (payload : String) : String :=
     match hexDecode lit, entries.mapM parseEntry with
     | some lit, some tab =>
       if flag = "R" then
-        hexEnc (evalLiteral false (fun _ => []) lit) ++ " -"
+        -- the string node with the flag the real lexer set: evalNode (Props/C14Node.raw_node_untouched)
+        match evalNode (σ := List String) [35] (fun lg _ => (EvOut.val [], lg)) [] false lit with
+        | Out.ok out _ => hexEnc out ++ " -"
+        | _ => "PANIC"
       else
         let cs := evaluated lit
         match cs.find? (fun c => (lookup tab c).isNone) with
@@ -118,7 +177,8 @@ def runCase (payload : String) : String :=
           -- the side-effect log; `impl_refines_spec` proves this equals the fold over the segmentation
           let evS : List String → List Nat → List Nat × List String := fun lg c =>
             match lookup tab c with | some e => (e.repl, lg ++ e.log) | none => ([], lg)
-          match impl evS [] lit with
+          -- the table holds the RENDERED outcome of each expression (value text, or marker + message)
+          match evalNode [35] (fun lg c => (EvOut.val (evS lg c).1, (evS lg c).2)) [] true lit with
           | Out.ok out log =>
             hexEnc out ++ " " ++ (if log.isEmpty then "-" else ".".intercalate log)
               ++ (if cs.isEmpty then "" else "\tnt=1")
